@@ -57,7 +57,9 @@ type RoundSpec struct {
 	// Special: "held" - a foreign listener holds the address while this round
 	// tries to bind it (the bind fails in the operating system; the next round
 	// must work); "bindonly" - Bind, then Shutdown, and no serving call at all
-	// (nothing ever tears the round down; the next round must work all the same)
+	// (nothing ever tears the round down; the next round must work all the same);
+	// "nobind" - DoListen on a service that was not bound: it is refused, and the
+	// next round must work all the same
 	Special string `json:"special,omitempty"`
 }
 
@@ -116,6 +118,11 @@ func (s *LifeScenario) Setup(k *sim.Kernel) {
 				serr := svc.Shutdown()
 				sim.Rec("shutdown.return", describeErr(serr))
 				sim.Rec("serve.return", mustJSON(roundRec{r, "skipped"}))
+				continue
+			}
+			if rd.Special == "nobind" {
+				err = svc.DoListen(s.ctxs[r], to)
+				sim.Rec("serve.return", mustJSON(roundRec{r, describeErr(err)}))
 				continue
 			}
 			if rd.UseBind {
@@ -491,6 +498,12 @@ func (s *LifeScenario) Check(k *sim.Kernel) []sim.Violation {
 		if spec.Special == "held" {
 			if l != nil {
 				out = append(out, vio("second-bind", "bind-of-held-endpoint-succeeded", "round %d bound %s although a foreign listener held it", rd.idx, s.Service.Address))
+			}
+			continue
+		}
+		if spec.Special == "nobind" {
+			if l != nil {
+				out = append(out, vio("second-bind", "dolisten-without-bind-bound", "round %d: DoListen without a Bind bound listener L%d", rd.idx, l.ID))
 			}
 			continue
 		}
@@ -1116,6 +1129,10 @@ func genC14(seed uint64, tier string) Scenario {
 		s.Rounds = []RoundSpec{{UseBind: g.Pct(50), Special: g.Pick("held", "bindonly")}, {UseBind: g.Pct(50)}}
 		if s.Rounds[0].Special == "bindonly" {
 			s.Rounds[0].UseBind = true
+			if NewGen(seed, 0xD011).IntN(2) == 0 {
+				// (a generator of its own: the scenarios of the other seeds stay what they were)
+				s.Rounds[0].Special = "nobind"
+			}
 		}
 		s.Ctl = [][]CtlOp{nil}
 		if g.Pct(60) {
